@@ -191,3 +191,178 @@ Example C02_chain_with_deferrals_is_exact :
 Proof.
   split; [exact ex_wf|]. split; [exact ex_selected_ok|]. vm_compute. repeat split.
 Qed.
+
+(* ---------- the CHAIN clause of the FULL STATEMENT, name mode (Pipe/PlanChains.v) ---------------------------- *)
+(* [occupies e e']: e' moves (destination <> source) and the source key of e is the destination key of e'.       *)
+(* [chain_ok s plan]: the destinations of the moving entries are pairwise distinct, and each is absent from s or  *)
+(* the source key of another moving entry (and short enough for the bounded walk of the model).                   *)
+(* [occupant_first] / [occupant_last]: every dependent pair is visited in the same direction, stated over         *)
+(* positions (nth_error) in the plan.  Either direction implies that the relation is acyclic, so acyclicity is    *)
+(* not a hypothesis; no hypothesis on the conflict strategy either (no conflict is ever resolved).                *)
+(* Occupant last needs [occupants_not_links]: the containment test resolves the destination before the entry is   *)
+(* deferred, so an occupant that is a symbolic link out of the input directory ends the run with status 1         *)
+(* ([C02_chain_link_occupant_refuted]).                                                                           *)
+From Tempren Require Import Pipe.PlanChains.
+
+Theorem C02_chain_occupant_first_succeeds : forall c plan cwd s,
+  c_mode c = MName -> c_dry c = false -> c_fault c = None -> c_var c = fixed ->
+  WF s -> selected_ok s plan -> chain_ok s plan -> occupant_first plan ->
+  r_status (run c plan cwd s) = 0%Z /\ r_final (run c plan cwd s) = apply_plan s plan.
+Proof. exact chain_occupant_first_succeeds. Qed.
+Print Assumptions C02_chain_occupant_first_succeeds.
+
+Theorem C02_chain_occupant_last_succeeds : forall c plan cwd s,
+  c_mode c = MName -> c_dry c = false -> c_fault c = None -> c_var c = fixed ->
+  WF s -> selected_ok s plan -> chain_ok s plan -> occupants_not_links s plan -> occupant_last plan ->
+  r_status (run c plan cwd s) = 0%Z /\ r_final (run c plan cwd s) = apply_plan s plan.
+Proof. exact chain_occupant_last_succeeds. Qed.
+Print Assumptions C02_chain_occupant_last_succeeds.
+
+(* either direction hypothesis makes the relation acyclic on the plan *)
+Theorem C02_occupant_first_acyclic : forall plan,
+  occupant_first plan -> forall e, ~ Relation_Operators.clos_trans _ (occupies_in plan) e e.
+Proof. exact occupant_first_acyclic. Qed.
+Print Assumptions C02_occupant_first_acyclic.
+
+Theorem C02_occupant_last_acyclic : forall plan,
+  occupant_last plan -> forall e, ~ Relation_Operators.clos_trans _ (occupies_in plan) e e.
+Proof. exact occupant_last_acyclic. Qed.
+Print Assumptions C02_occupant_last_acyclic.
+
+(* a plan whose destinations are all free satisfies the chain hypotheses in both directions *)
+Theorem C02_all_free_is_a_chain : forall s plan,
+  WF s -> selected_ok s plan -> all_free s plan ->
+  chain_ok s plan /\ occupant_first plan /\ occupant_last plan /\ occupants_not_links s plan.
+Proof. exact all_free_chain_ok. Qed.
+Print Assumptions C02_all_free_is_a_chain.
+
+(* the boolean checkers imply the hypotheses *)
+Theorem C02_chain_checkers_sound : forall s plan,
+  (chain_okb s plan = true -> chain_ok s plan) /\
+  (occupant_firstb plan = true -> occupant_first plan) /\
+  (occupant_lastb plan = true -> occupant_last plan) /\
+  (occupants_not_linksb s plan = true -> occupants_not_links s plan).
+Proof.
+  intros s plan. split; [apply chain_okb_sound|]. split; [apply occupant_firstb_sound|].
+  split; [apply occupant_lastb_sound | apply occupants_not_linksb_sound].
+Qed.
+Print Assumptions C02_chain_checkers_sound.
+
+(* non-vacuity, one example per direction, THROUGH the theorems (run is not evaluated): the chain in/0->1, in/1->2,
+   in/2->3 front to back (occupant last: two deferrals) and back to front (occupant first: none) *)
+Example C02_chain_occupant_last_example :
+  occupant_last ex_plan /\ ~ occupant_first ex_plan /\
+  r_status (run ex_cfg ex_plan [] ex_fs) = 0%Z /\ r_final (run ex_cfg ex_plan [] ex_fs) = apply_plan ex_fs ex_plan.
+Proof.
+  split; [exact ex_occupant_last|]. split; [exact ex_not_occupant_first|].
+  apply C02_chain_occupant_last_succeeds;
+    [reflexivity | reflexivity | reflexivity | reflexivity | exact ex_wf | exact ex_selected_ok | exact ex_chain_ok
+    | exact ex_occupants_not_links | exact ex_occupant_last].
+Qed.
+
+Example C02_chain_occupant_first_example :
+  occupant_first ex_plan_rev /\
+  r_status (run ex_cfg ex_plan_rev [] ex_fs) = 0%Z /\
+  r_final (run ex_cfg ex_plan_rev [] ex_fs) = apply_plan ex_fs ex_plan_rev /\
+  map (fun x => fst (fst x)) (r_report (run ex_cfg ex_plan_rev [] ex_fs)) = [[115;117;98;47;120]; [50]; [49]; [48]].
+Proof.
+  split; [exact ex_rev_occupant_first|].
+  rewrite <- and_assoc. split; [|vm_compute; reflexivity].
+  apply C02_chain_occupant_first_succeeds;
+    [reflexivity | reflexivity | reflexivity | reflexivity | exact ex_wf | exact ex_rev_selected_ok | exact ex_rev_chain_ok
+    | exact ex_rev_occupant_first].
+Qed.
+
+(* the extra hypothesis of the occupant-last direction cannot be dropped: in/a -> b, in/b -> c where in/b is a
+   symbolic link to /out.  Every other hypothesis holds; visiting in/a first ends the run with status 1
+   (InvalidDestinationError from the containment test, which follows the link), visiting in/b first succeeds. *)
+Example C02_chain_link_occupant_refuted :
+  WF lk_fs /\ selected_ok lk_fs lk_plan /\ chain_ok lk_fs lk_plan /\ occupant_last lk_plan /\
+  r_status (run ex_cfg lk_plan [] lk_fs) = 1%Z /\ r_error (run ex_cfg lk_plan [] lk_fs) = Some ExInvalidDest /\
+  r_status (run ex_cfg (rev lk_plan) [] lk_fs) = 0%Z.
+Proof.
+  destruct ex_link_occupant_fails as [A [B [C [D [_ [E F]]]]]].
+  split; [exact A|]. split; [exact B|]. split; [exact C|]. split; [exact D|]. split; [exact E|]. split; [exact F|].
+  vm_compute. reflexivity.
+Qed.
+
+(* ---------- PATH MODE exactness (Pipe/PlanExactPath.v) ------------------------------------------------------ *)
+(* [selected_ok_p s plan]: every entry is (f, RText t) with a relative source path without "..", chdir to its     *)
+(* input directory lands on that very path, lstat finds a file or symbolic link at exactly input directory /      *)
+(* relative path; parse_path t is a relative, non-empty path without ".."; every proper prefix of the destination *)
+(* key [pdst f t] = input directory / parse_path t is a directory of s or missing ([dm]: nothing beneath a        *)
+(* non-directory or a link); the real source paths are pairwise distinct; no destination is a proper ancestor of  *)
+(* another destination.  (That a destination is not an existing directory need not be assumed: such a run does    *)
+(* not report 0.)  No hypothesis about the containment tests, the order of the plan, collisions or deferrals.     *)
+(* [apply_plan_p s plan]: every selected source key replaced, simultaneously, by its destination key;             *)
+(* [needed_dir plan k]: k is a proper ancestor of some destination.                                               *)
+From Tempren Require Import Pipe.PlanExactPath.
+
+(* on every key: the re-keyed initial tree, plus a directory at every proper ancestor of a destination that was
+   missing, and nothing else *)
+Theorem C02_success_exact_path_mode : forall c plan cwd s,
+  c_mode c = MPath -> c_strategy c = Stop -> c_dry c = false -> c_fault c = None -> c_var c = fixed ->
+  WF s -> selected_ok_p s plan ->
+  r_status (run c plan cwd s) = 0%Z ->
+  forall k, lookup (r_final (run c plan cwd s)) k =
+            match lookup (apply_plan_p s plan) k with
+            | Some n => Some n
+            | None => if needed_dir plan k then Some NDir else None
+            end.
+Proof. exact success_exact_path_mode. Qed.
+Print Assumptions C02_success_exact_path_mode.
+
+(* as a list: the initial entries in their order with re-keyed paths and unchanged nodes, followed by the created
+   directories, each a proper ancestor of a destination; the result is well-formed *)
+Theorem C02_success_exact_path_mode_list : forall c plan cwd s,
+  c_mode c = MPath -> c_strategy c = Stop -> c_dry c = false -> c_fault c = None -> c_var c = fixed ->
+  WF s -> selected_ok_p s plan ->
+  r_status (run c plan cwd s) = 0%Z ->
+  exists C, r_final (run c plan cwd s) = apply_plan_p s plan ++ C /\
+            (forall k n, In (k, n) C -> n = NDir /\ exists f t, In (f, RText t) plan /\ proper_prefix k (pdst f t)) /\
+            WF (r_final (run c plan cwd s)).
+Proof. exact success_exact_path_mode_list. Qed.
+Print Assumptions C02_success_exact_path_mode_list.
+
+Theorem C02_selected_okb_p_sound : forall s plan, selected_okb_p s plan = true -> selected_ok_p s plan.
+Proof. exact selected_okb_p_sound. Qed.
+Print Assumptions C02_selected_okb_p_sound.
+
+(* one call of FileMover on plain paths, whatever its outcome: the tree gains only missing ancestors of the
+   destination; on success it is then re-keyed from the source key to the destination key, which was free *)
+Theorem C02_file_mover_step_is_exact : forall w d src dst w' r,
+  pp_root src = 0%nat -> pp_root dst = 0%nat ->
+  no_dotdot (pp_parts src) = true -> no_dotdot (pp_parts dst) = true -> pp_parts dst <> [] ->
+  dm (w_fs w) (d ++ pp_parts dst) -> dm (w_fs w) (d ++ pp_parts src) ->
+  file_mover fixed None w d src dst false = (w', r) ->
+  exists C1, new_dirs (d ++ pp_parts dst) C1 /\ FS.DirExt.dir_ext (w_fs w) (w_fs w ++ C1) /\
+    match r with
+    | Some _ => w_fs w' = w_fs w ++ C1
+    | None => w_fs w' = rekey (d ++ pp_parts src) (d ++ pp_parts dst) (w_fs w ++ C1) /\
+              lookup (w_fs w ++ C1) (d ++ pp_parts dst) = None
+    end.
+Proof. exact file_mover_plain. Qed.
+Print Assumptions C02_file_mover_step_is_exact.
+
+(* non-vacuity: in/b -> a is deferred behind in/a -> new/deep/a (which creates in/new and in/new/deep), the symbolic
+   link in/sub/x -> sub/y moves inside an existing directory; the hypotheses hold, the run reports 0, and the
+   equation of the theorem holds on every key *)
+Example C02_path_mode_example :
+  WF pex_fs /\ selected_ok_p pex_fs pex_plan /\
+  r_status (run pex_cfg pex_plan [] pex_fs) = 0%Z /\
+  lookup (r_final (run pex_cfg pex_plan [] pex_fs)) [ex_in; [97]] = Some (NFile 2) /\
+  lookup (r_final (run pex_cfg pex_plan [] pex_fs)) [ex_in; [110;101;119]; [100;101;101;112]] = Some NDir /\
+  lookup (r_final (run pex_cfg pex_plan [] pex_fs)) [ex_in; [110;101;119]; [100;101;101;112]; [97]] = Some (NFile 1) /\
+  (forall k, lookup (r_final (run pex_cfg pex_plan [] pex_fs)) k =
+             match lookup (apply_plan_p pex_fs pex_plan) k with
+             | Some n => Some n
+             | None => if needed_dir pex_plan k then Some NDir else None
+             end).
+Proof.
+  split; [exact pex_wf|]. split; [exact pex_selected_ok|].
+  split; [vm_compute; reflexivity|]. split; [vm_compute; reflexivity|]. split; [vm_compute; reflexivity|].
+  split; [vm_compute; reflexivity|].
+  apply C02_success_exact_path_mode;
+    [reflexivity | reflexivity | reflexivity | reflexivity | reflexivity | exact pex_wf | exact pex_selected_ok |].
+  vm_compute. reflexivity.
+Qed.
